@@ -555,7 +555,7 @@ Proof.
     [ rewrite (Hpno Hle) in Hhp; cbn in Hhp; discriminate
     | rewrite (Hpyes ltac:(lia)); cbn [tH tL]; split; reflexivity ]).
   all: destruct Hpform as [EpH EpL].
-  all: rewrite EpH, EpL in Hhp.
+  all: rewrite EpH, EpL, EtN in Hhp.
   all: apply lookup_in in Hlk; apply Hord in Hlk.
   1: { (* n = 0: the parent would be above the bound *)
        exfalso. rewrite Forall_forall in HB. pose proof (HB p (nth_error_In _ _ Hlk)).
@@ -565,24 +565,24 @@ Proof.
   destruct (hash_from_tile_auth R N p dj _ hh Hpa Hhp ltac:(lia)) as [l [o [Hsp Hnode]]].
   rewrite (split_index ((Lv + 1) * h) nt ltac:(nia) Hnt0 ltac:(lia)) in Hsp. injection Hsp as <- <-.
   (* the tile's own hash *)
-  set (Hn := Z.to_nat h).
-  assert (Hp2 : Z.of_nat (2 ^ Hn) = 2 ^ h) by (rewrite pow2_nat_Z; unfold Hn; rewrite Z2Nat.id by lia; reflexivity).
+  set (hn := Z.to_nat h).
+  assert (Hp2 : Z.of_nat (2 ^ hn) = 2 ^ h) by (rewrite pow2_nat_Z; unfold hn; rewrite Z2Nat.id by lia; reflexivity).
   destruct (Forall2_nth _ _ _ _ _ Hlen Ht) as [d' [Hd' Hld]]. rewrite Hd in Hd'. injection Hd' as <-.
-  assert (Hlend : length d = (32 * 2 ^ Hn)%nat) by (unfold len in Hld; rewrite EtW in Hld; lia).
-  rewrite (tile_hash_spec node_hash Hn d Hlend) in Hth. injection Hth as <-.
-  replace ((Lv + 1) * h) with (Lv * h + Z.of_nat Hn) in Hnode by (unfold Hn; rewrite Z2Nat.id by lia; ring).
-  pose proof (mtree_blocks node_hash R N (Lv * h) Hn d nt HLth Hlend Hnode) as HM.
+  assert (Hlend : length d = (32 * 2 ^ hn)%nat) by (unfold len in Hld; rewrite EtW in Hld; lia).
+  rewrite (tile_hash_spec node_hash hn d Hlend) in Hth. injection Hth as <-.
+  replace ((Lv + 1) * h) with (Lv * h + Z.of_nat hn) in Hnode by (unfold hn; rewrite Z2Nat.id by lia; ring).
+  pose proof (mtree_blocks node_hash R N (Lv * h) hn d nt HLth Hlend Hnode) as HM.
   unfold tile_auth. rewrite EtH, EtL, EtN, EtW.
   do 5 (split; [first [assumption | lia] |]).
   intros j' s Hj' Hs.
-  assert (Hjn : (j' <= Hn)%nat) by (unfold Hn; lia).
+  assert (Hjn : (j' <= hn)%nat) by (unfold hn; lia).
   assert (E : 2 ^ h = 2 ^ (h - Z.of_nat j') * 2 ^ Z.of_nat j') by (apply pow2_split; lia).
   pose proof (pow2_pos (Z.of_nat j') ltac:(lia)). pose proof (pow2_pos (h - Z.of_nat j') ltac:(lia)).
-  assert (Hslt : (s < 2 ^ (Hn - j'))%nat).
-  { apply Nat2Z.inj_lt. rewrite pow2_nat_Z. replace (Z.of_nat (Hn - j')) with (h - Z.of_nat j') by (unfold Hn; lia).
+  assert (Hslt : (s < 2 ^ (hn - j'))%nat).
+  { apply Nat2Z.inj_lt. rewrite pow2_nat_Z. replace (Z.of_nat (hn - j')) with (h - Z.of_nat j') by (unfold hn; lia).
     rewrite E in Hs. nia. }
   specialize (HM j' s Hjn Hslt).
-  replace (Z.of_nat (Hn - j')) with (h - Z.of_nat j') in HM by (unfold Hn; lia). exact HM.
+  replace (Z.of_nat (hn - j')) with (h - Z.of_nat j') in HM by (unfold hn; lia). exact HM.
 Qed.
 
 Lemma all_tiles_auth i t d :
@@ -598,4 +598,121 @@ Qed.
 
 End Phase3.
 
-End_of_part_four_marker.
+
+(* ---------------------------------------------------------------- the theorem *)
+
+Lemma make_plan_spec N h ix p :
+  0 <= N <= 2 ^ 62 -> make_plan N h ix = TOk p ->
+  exists bs tiles1 ext2 ord1,
+    Blocks 0 N bs /\ p_stx p = sub_tree_indexes bs /\
+    p_tiles p = tiles1 ++ ext2 /\ p_nstx p = length tiles1 /\
+    ord_full ord1 tiles1 /\
+    Forall2 (fun x j => exists t, stx_tile h N x t /\ nth_error tiles1 j = Some t) (p_stx p) (p_stx_order p) /\
+    (forall q, (q < length tiles1)%nat -> In q (p_stx_order p)) /\
+    ord_ok (p_order p) (p_tiles p) /\ Forall (phase2_tile h N) ext2 /\
+    Forall2 (index_at h N (p_tiles p)) ix (p_index_order p).
+Proof.
+  intros HN H. unfold make_plan in H.
+  apply tbind_ok in H. destruct H as [stx [Estx H]].
+  apply tbind_ok in H. destruct H as [[[ord1 tiles1] sto] [E1 H]]. cbn [fst snd] in H.
+  apply tbind_ok in H. destruct H as [[[ord2 tiles2] ito] [E2 H]]. cbn [fst snd] in H.
+  injection H as <-. cbn [p_stx p_tiles p_nstx p_stx_order p_order p_index_order].
+  destruct (sub_tree_ok 0 N ltac:(lia) ltac:(lia) (aligned_0 N ltac:(lia))) as [bs [Ebs HB]].
+  unfold sub_tree_index in Estx. rewrite Ebs in Estx. cbn in Estx. injection Estx as <-.
+  assert (Hok0 : ord_ok [] []) by (intros t j []).
+  assert (Hfull0 : ord_full [] []) by (intros j t Hj; destruct j; discriminate).
+  destruct (plan_stx_spec _ _ _ _ _ _ _ _ E1 Hok0 Hfull0) as [Hok1 [Hfull1 [_ [Hsto Hcov]]]].
+  destruct (plan_indexes_spec _ _ _ _ _ _ _ _ E2 Hok1) as [Hok2 [[ext2 [Eext Hp2]] Hix]].
+  exists bs, tiles1, ext2, ord1. subst tiles2.
+  repeat (split; [first [assumption | reflexivity] |]).
+  split; [intros q Hq; apply Hcov; cbn [length]; lia|].
+  repeat (split; [assumption|]). assumption.
+Qed.
+
+Lemma shi0_bound' N x : 0 <= N <= 2 ^ 62 -> x < stored_hash_index 0 N -> x < 2 ^ 63.
+Proof.
+  intros HN Hx. pose proof (first_index_le_double N ltac:(lia)) as Hd. unfold first_index in Hd.
+  assert (2 * 2 ^ 62 = 2 ^ 63) by reflexivity. lia.
+Qed.
+
+(* every tile is authenticated once the two authentication passes have succeeded *)
+Lemma checked_tiles_auth N R h ix p data :
+  0 <= N <= 2 ^ 62 -> make_plan N h ix = TOk p ->
+  length data = length (p_tiles p) -> check_lengths (p_tiles p) data = true ->
+  auth_stx node_hash p data R = TOk tt ->
+  auth_rest node_hash N (p_order p) (p_tiles p) data
+            (skipn (p_nstx p) (combine (seq 0 (length (p_tiles p))) (p_tiles p))) = TOk tt ->
+  forall i t d, nth_error (p_tiles p) i = Some t -> nth_error data i = Some d -> tile_auth R N t d.
+Proof.
+  intros HN Ep Hl Ecl Ea Er.
+  destruct (make_plan_spec N h ix p HN Ep)
+    as [bs [tiles1 [ext2 [ord1 [HB [Estx [Etiles [Enstx [Hfull1 [Hsto [Hcov [Hok2 [Hp2 Hix]]]]]]]]]]]]].
+  pose proof (check_lengths_spec _ _ Ecl Hl) as Hlen.
+  unfold auth_stx in Ea. apply tbind_ok in Ea. destruct Ea as [rhs [Esh Ea]].
+  destruct (fold_rev node_hash rhs) as [th|] eqn:Efr; [|discriminate].
+  destruct (str_eqb th R) eqn:Eq; [|discriminate]. apply str_eqb_eq in Eq. subst th.
+  apply stx_hashes_spec in Esh. apply Forall2_rev in Esh. rewrite rev_involutive in Esh.
+  assert (Hfold : fold_hashes node_hash (rev rhs) = Some R) by (rewrite <- fold_rev_rev, rev_involutive; exact Efr).
+  rewrite Etiles, Estx in *. rewrite Enstx in Er.
+  apply auth_rest_spec in Er.
+  apply (all_tiles_auth h N R tiles1 ext2 data (p_order p) HN Hp2 Hok2 Hlen); [|exact Er].
+  intros q T d Hq HT Hd.
+  apply (stx_tiles_auth h N R bs tiles1 ext2 data (p_stx_order p) (rev rhs) ord1 HN HB Hfull1 Hsto Hcov Hlen Esh Hfold q T d Hq HT Hd).
+Qed.
+
+Theorem read_hashes_sound N R h ix rt hs ts ds :
+  0 <= N <= 2 ^ 62 ->
+  tile_read_hashes node_hash (N, R) h ix rt = (TOk hs, Some (ts, ds)) ->
+  Forall2 (fun i x => exists l o, split_stored_hash_index i = Ok (l, o) /\ NodeAt R N l o x) ix hs /\
+  Forall2 (tile_ok node_hash R N) ts ds.
+Proof.
+  intros HN H. unfold tile_read_hashes in H. cbn [fst snd] in H.
+  destruct ((h <? 1) || (62 <? h)); [discriminate|].
+  destruct (make_plan N h ix) as [p| |] eqn:Ep; try discriminate.
+  destruct (rt (p_tiles p)) as [data|]; [|discriminate].
+  unfold check_and_extract in H. cbn [fst snd] in H.
+  destruct (Nat.eqb_spec (length data) (length (p_tiles p))) as [Hl|]; [|discriminate]. cbn [negb] in H.
+  destruct (check_lengths (p_tiles p) data) eqn:Ecl; [|discriminate]. cbn [negb] in H.
+  destruct (auth_stx node_hash p data R) as [[]| |] eqn:Ea; try discriminate.
+  destruct (auth_rest node_hash N (p_order p) (p_tiles p) data _) as [[]| |] eqn:Er; try discriminate.
+  injection H as Hex <- <-.
+  pose proof (checked_tiles_auth N R h ix p data HN Ep Hl Ecl Ea Er) as Hall.
+  destruct (make_plan_spec N h ix p HN Ep)
+    as [bs [tiles1 [ext2 [ord1 [_ [_ [_ [_ [_ [_ [_ [_ [_ Hix]]]]]]]]]]]]].
+  split.
+  - apply extract_spec in Hex.
+    apply Forall2_combine_l in Hex; [|apply (Forall2_length' _ _ _ Hix)].
+    revert Hex. apply Forall2_impl_in.
+    intros x hh _ [j [i [Hxi [Hji Hat]]]]. cbn [fst snd] in Hat.
+    destruct (Forall2_nth _ _ _ _ _ Hix Hxi) as [j' [Hj' [Hx _]]].
+    unfold TileReader.hash_at in Hat.
+    destruct (nth_error (p_tiles p) j) as [t|] eqn:Et; [|discriminate].
+    destruct (nth_error data j) as [d|] eqn:Ed; [|discriminate].
+    apply (hash_from_tile_auth R N t d x hh (Hall j t d Et Ed) Hat (shi0_bound' N x HN Hx)).
+  - apply Forall2_of_nth; [symmetry; exact Hl|].
+    intros i t d Ht Hd. apply tile_auth_ok. apply (Hall i t d Ht Hd).
+Qed.
+
+(* nothing is handed to SaveTiles unless both authentication passes succeeded; in particular
+   every error before the extraction leaves the second component None *)
+Theorem read_hashes_saved_only_authenticated N R h ix rt r ts ds :
+  0 <= N <= 2 ^ 62 ->
+  tile_read_hashes node_hash (N, R) h ix rt = (r, Some (ts, ds)) ->
+  Forall2 (tile_ok node_hash R N) ts ds.
+Proof.
+  intros HN H. unfold tile_read_hashes in H. cbn [fst snd] in H.
+  destruct ((h <? 1) || (62 <? h)); [discriminate|].
+  destruct (make_plan N h ix) as [p| |] eqn:Ep; try discriminate.
+  destruct (rt (p_tiles p)) as [data|]; [|discriminate].
+  unfold check_and_extract in H. cbn [fst snd] in H.
+  destruct (Nat.eqb_spec (length data) (length (p_tiles p))) as [Hl|]; [|discriminate]. cbn [negb] in H.
+  destruct (check_lengths (p_tiles p) data) eqn:Ecl; [|discriminate]. cbn [negb] in H.
+  destruct (auth_stx node_hash p data R) as [[]| |] eqn:Ea; try discriminate.
+  destruct (auth_rest node_hash N (p_order p) (p_tiles p) data _) as [[]| |] eqn:Er; try discriminate.
+  injection H as _ <- <-.
+  pose proof (checked_tiles_auth N R h ix p data HN Ep Hl Ecl Ea Er) as Hall.
+  apply Forall2_of_nth; [symmetry; exact Hl|].
+  intros i t d Ht Hd. apply tile_auth_ok. apply (Hall i t d Ht Hd).
+Qed.
+
+End Sound.
